@@ -846,6 +846,11 @@ class SR:
     def conjugate(s):
         return s
 
+    # numpy scalar look-alike attributes (0-d results of object-array arithmetic are unwrapped to the scalar itself)
+    size = 1
+    ndim = 0
+    shape = ()
+
     @property
     def real(s):
         return s
